@@ -19,11 +19,13 @@ EXTENDS Integers, Sequences, FiniteSets, TLC
 CONSTANTS Sizes, Aligns, FlagSet, UseCounts, Deltas, MaxSlots, MaxOps, Variant
 
 VARIABLES v,        \* the allocator as the contract sees it
+          phase,    \* model reduction: build -> calc1 -> (adj | calc2 | build2) -> final
+          resets,   \* number of resets so far
           gapsSeen, \* a gap was recorded by some calculate_stack_frame
           failed,   \* the transcription left the domain of defined behaviour (out-of-range index, underflow)
           hist      \* call history (behaviour export)
 
-vars == <<v, gapsSeen, failed, hist>>
+vars == <<v, phase, resets, gapsSeen, failed, hist>>
 
 C == INSTANCE RAStack
 
@@ -101,28 +103,35 @@ NoGaps == [k \in 0 .. 5 |-> <<>>]
 (* ---- actions ------------------------------------------------------------------------------------------------------ *)
 Log(op) == hist' = Append(hist, op)
 Bound == Len(hist) < MaxOps /\ failed = FALSE
+Building == phase \in {"build", "build2"}
 
 New(size, align, flags) ==
-  /\ Bound /\ Len(v.slots) < MaxSlots
+  /\ Bound /\ Len(v.slots) < MaxSlots /\ phase \in {"build", "build2", "calc1"}
+  /\ phase' = (IF phase = "calc1" THEN "build2" ELSE phase)
   /\ LET s == [size |-> size, align |-> C!Max(align, 1), flags |-> flags, uc |-> 0, w |-> 0, off |-> 0, base |-> 4] IN
      v' = [v EXCEPT !.slots = Append(@, s), !.order = Append(@, Len(v.slots)), !.aalign = C!Max(@, align)]
   /\ Log(<<"new", size, align, flags, 4>>)
-  /\ UNCHANGED <<gapsSeen, failed>>
+  /\ UNCHANGED <<resets, gapsSeen, failed>>
 
+(* (model reduction: counters and argument positions are set right after the slot was created) *)
 Use(i, k) ==
-  /\ Bound /\ i \in 1 .. Len(v.slots)
+  /\ Bound /\ i = Len(v.slots) /\ i >= 1 /\ hist[Len(hist)][1] = "new"
   /\ v' = [v EXCEPT !.slots[i].uc = @ + k]
   /\ Log(<<"use", i - 1, k>>)
-  /\ UNCHANGED <<gapsSeen, failed>>
+  /\ Building
+  /\ UNCHANGED <<phase, resets, gapsSeen, failed>>
 
 SetOff(i, off) ==
-  /\ Bound /\ i \in 1 .. Len(v.slots) /\ C!IsArg(v.slots[i])
+  /\ Bound /\ i = Len(v.slots) /\ i >= 1 /\ hist[Len(hist)][1] \in {"new", "use"} /\ C!IsArg(v.slots[i])
   /\ v' = [v EXCEPT !.slots[i].off = off]
   /\ Log(<<"setoff", i - 1, off>>)
-  /\ UNCHANGED <<gapsSeen, failed>>
+  /\ Building
+  /\ UNCHANGED <<phase, resets, gapsSeen, failed>>
 
 Calc ==
-  /\ Bound
+  /\ Bound /\ phase # "final"
+  /\ phase' = (IF phase = "build" THEN "calc1" ELSE "final")
+  /\ UNCHANGED resets
   /\ Log(<<"calc">>)
   /\ LET ss1 == [i \in 1 .. Len(v.slots) |-> [v.slots[i] EXCEPT !.w = Weight(v.slots[i])]] IN
      \E p \in SortedOrders(ss1) :
@@ -135,19 +144,19 @@ Calc ==
               /\ UNCHANGED failed
 
 Adjust(d) ==
-  /\ Bound
+  /\ Bound /\ phase = "calc1" /\ phase' = "adj"
   /\ v' = [v EXCEPT !.slots = [i \in 1 .. Len(v.slots) |->
                                  IF C!IsArg(v.slots[i]) THEN v.slots[i] ELSE [v.slots[i] EXCEPT !.off = @ + d]]]
   /\ Log(<<"adjust", d>>)
-  /\ UNCHANGED <<gapsSeen, failed>>
+  /\ UNCHANGED <<resets, gapsSeen, failed>>
 
 Reset ==
-  /\ Bound /\ Len(v.slots) > 0
-  /\ v' = C!Empty
+  /\ Bound /\ Len(v.slots) > 0 /\ resets = 0 /\ phase \in {"adj", "calc1"} /\ Len(v.slots) < MaxSlots
+  /\ v' = C!Empty /\ phase' = "build2" /\ resets' = 1
   /\ Log(<<"reset">>)
   /\ UNCHANGED <<gapsSeen, failed>>
 
-Init == v = C!Empty /\ gapsSeen = FALSE /\ failed = FALSE /\ hist = <<>>
+Init == v = C!Empty /\ phase = "build" /\ resets = 0 /\ gapsSeen = FALSE /\ failed = FALSE /\ hist = <<>>
 Next == \/ \E s \in Sizes, a \in Aligns, f \in FlagSet : New(s, a, f)
         \/ \E i \in 1 .. MaxSlots, k \in UseCounts : Use(i, k)
         \/ \E i \in 1 .. MaxSlots : SetOff(i, 1000)
@@ -176,5 +185,5 @@ ContractInv == C!StackInv
 
 (* behaviour export *)
 Export == (Len(hist) = MaxOps \/ failed) => PrintT(<<"BEH", hist>>)
-View == <<v, gapsSeen, failed, Len(hist)>>
+View == <<v, phase, resets, gapsSeen, failed, Len(hist), IF hist = <<>> THEN "" ELSE hist[Len(hist)][1]>>
 =============================================================================
